@@ -5,7 +5,13 @@ Legs on every run:
                    build, must print byte for byte what `chibicc -S` prints, on all test/*.c, chibicc's own sources and
                    seeded random programs                                                        -> corr.disagreements
   theorems' hypotheses <-> code : `drv_c20 scope` evaluates the typing side condition of the theorems (`typedS`) on every
-                   function body the real front end dumped; a false hypothesis is reported as a disagreement
+                   function body the real front end dumped; a false hypothesis is reported as a disagreement.
+                   `drv_c20 flow` evaluates, per function, the hypotheses of the label-height theorem
+                   C20_function_flow_partial (typedS, flowFn on the tree; userDistinct on the code: the parser's labels
+                   occur once each) and its conclusions (all labels pairwise distinct; Effect.checkBody): a false
+                   hypothesis on real output, and a function inside the theorem's scope whose labels are not distinct or
+                   that the whole-function check rejects (other than by its range test), are disagreements; the scope
+                   coverage and the x87 register need of every function (region of C20-x87-depth-overflow) are counted
   property on the emitted code : `drv_c20 effect` runs Effect.checkBody (one stack height per label, nothing below the
                    frame, at most eight x87 registers, rsp back on every return) on the code of every dumped function;
                    because that code *is* the compiler's output (text tie), a failure is a violation on the implementation
@@ -50,9 +56,34 @@ ASSUMPTIONS = [
     'sizes and offsets do not wrap around 32/64 bits in the model (Int arithmetic)',
 ]
 
-KNOWN_EMPTY = 'C20-empty-struct-arg'
 KNOWN_JUMP = 'C20-jump-out-of-stmt-expr'
-EMPTY_WITNESS = 'struct E {}; int g(struct E e, int x) { return x; } int main(void) { struct E e; return g(e, 3) - 3; }\n'
+KNOWN_X87 = 'C20-x87-depth-overflow'
+# GNU empty structs/unions as arguments, parameters and return values (the former known finding C20-empty-struct-arg, repaired by
+# /repo b298aee): part of the tie corpus; the program must also compile, link and exit 0
+EMPTY_PROGRAM = r'''
+#include <stdarg.h>
+struct E {}; union U {}; struct P { struct E e; int x; };
+struct E ge; union U gu;
+int g(struct E e, int x) { return x; }
+int h(int a, struct E e, union U u, double d, struct E e2, long b) { return a + (int)d + b; }
+struct E re(struct E e) { return e; }
+union U ru(void) { union U u; return u; }
+long many(int i1, struct E e, int i2, int i3, int i4, int i5, int i6, struct E e2, int i7, double d1, union U u, long double l) { return i1 + i7; }
+int v(int n, ...) { va_list ap; va_start(ap, n); int s = va_arg(ap, int); va_end(ap); return s; }
+struct P rp(struct P p) { return p; }
+long double ld(struct E e, long double x, union U u) { return x; }
+int main(void) {
+  struct E e; union U u; struct P p = {{}, 4};
+  e = re(e); u = ru(); p = rp(p);
+  re(e); (void)ru();
+  for (int i = 0; i < 20; i++) { g(e, i); ld(e, 1.0L, u); e = re(e); }
+  return g(e, 3) - 3 + h(1, e, u, 2.0, e, 3) - 6 + many(1, e, 2, 3, 4, 5, 6, e, 7, 1.0, u, 2.0L) - 8 + v(1, e, 5) - 5 + p.x - 4
+         + (ld(e, 2.5L, u) != 2.5L);
+}
+'''
+X87_WITNESS = ('#include <stdio.h>\n'
+               'int main(void) { volatile long double a = 1.0L; long double r = a+(a+(a+(a+(a+(a+(a+(a+a)))))));\n'
+               '  long double r8 = a+(a+(a+(a+(a+(a+(a+a)))))); printf("%.1Lf %.1Lf\\n", r8, r); return 0; }\n')
 JUMP_WITNESS = ('long f(void) { long n = 0; for (int i = 0; i < 9; i++) { n += 1 + ({ if (i % 2) continue; 2; }); } return n; }\n'
                 'int main(void) { return f() != 15; }\n')
 
@@ -86,6 +117,33 @@ def run_effect_scope(ctx, corr, dump, label, allow_known=False):
                 corr.disagreements.append({'kind': 'typing-hypothesis-false', 'file': label, 'function': w[1],
                                            'note': 'typedS is false on a tree the real front end produced: the side condition '
                                                    'of the C20 theorems does not describe parse()/add_type'})
+    # hypotheses and conclusion of the label-height theorem (C20_function_flow_partial), per function
+    rc3, o3, e3 = sh([drv, 'flow', dump], timeout=300)
+    need = {}
+    for line in o3.splitlines():
+        w = line.split(' ', 14)
+        if (len(w) >= 14 and w[0] == 'fn' and w[2] == 'typed' and w[4] == 'flow' and w[6] == 'udistinct' and w[8] == 'distinct'
+                and w[10] == 'x87need' and w[12] == 'check'):
+            corr.count('flow_functions')
+            typed, flow, udist, dist, chk = w[3] == '1', w[5] == '1', w[7] == '1', w[9] == '1', w[13]
+            need[w[1]] = int(w[11])
+            why = w[14] if len(w) > 14 else ''
+            if typed and flow and udist:
+                corr.count('flow_functions_in_theorem_scope')
+                if chk == 'FAIL' or not dist:
+                    corr.disagreements.append({'kind': 'label-height-theorem-contradicted', 'file': label, 'function': w[1],
+                                               'note': 'the function is in the scope of C20_function_flow_partial but '
+                                                       + ('its labels are not pairwise distinct' if not dist else
+                                                          'Effect.checkBody rejects its code: ' + why)})
+            elif not flow:
+                corr.count('flow_functions_out_of_scope')
+            if chk == 'range':
+                corr.count('flow_range_only')
+            if typed and flow and not udist:
+                corr.disagreements.append({'kind': 'parser-labels-not-distinct', 'file': label, 'function': w[1],
+                                           'note': 'the emitted code defines a parser label (break/continue/case/goto label) twice: '
+                                                   'hypothesis userDistinct of C20_function_flow_partial is false on real output'})
+    bad = [(fn, why, need.get(fn, 0)) for fn, why in bad]
     return bad
 
 
@@ -94,10 +152,17 @@ def on_file(ctx, corr, res, label):
     dump = os.path.join(ctx.scratch, 'tie_work', 'dump.txt')
     if res['outcome'] != 'ok' or not os.path.exists(dump):
         return
-    for fn, why in run_effect_scope(ctx, corr, dump, label):
-        corr.violations.append({'what': f'residue on a path through {fn}: {why}', 'input': label,
-                                'expected': 'one stack height per label, nothing below the frame, rsp 0 at return',
-                                'got': why, 'leg': 'Effect.checkBody on the emitted code'})
+    for fn, why, x87need in run_effect_scope(ctx, corr, dump, label):
+        v = {'what': f'residue on a path through {fn}: {why}', 'input': label,
+             'expected': 'one stack height per label, nothing below the frame, rsp 0 at return',
+             'got': why, 'leg': 'Effect.checkBody on the emitted code'}
+        # known finding C20-x87-depth-overflow: the check's only complaint is "more than eight x87 registers" and the
+        # function is in the region x87Deep (Model/C20Flow.lean: some evaluation needs more than eight x87 registers)
+        m = re.match(r'height out of range: rsp (-?\d+), x87 (-?\d+)', why)
+        if m and int(m.group(1)) <= 0 and int(m.group(2)) > 8 and x87need > 8:
+            v['known_id'] = KNOWN_X87
+            corr.count('known_region_x87_depth')
+        corr.violations.append(v)
 
 
 # ------------------------------------------------------------------------------------------------ oracle leg (probes)
@@ -190,15 +255,37 @@ def known_witnesses(ctx, corr):
     snap = ctx.take_snapshot(False)
     d = os.path.join(ctx.scratch, 'known')
     os.makedirs(d, exist_ok=True)
-    # empty struct argument: cc1 aborts on assert(depth == 0)
+    # empty struct/union arguments, parameters and return values (repaired defect): must compile, link, run, exit 0
     p = os.path.join(d, 'empty.c')
-    open(p, 'w').write(EMPTY_WITNESS)
-    rc, o, e = sh([ctx.cc, '-S', '-o', os.path.join(d, 'empty.s'), p], timeout=60)
+    open(p, 'w').write(EMPTY_PROGRAM)
+    rc, o, e = sh([ctx.cc, f'-I{snap}/include', '-o', os.path.join(d, 'empty'), p], timeout=60)
     corr.evaluations += 1
     if rc != 0:
-        corr.known_hits.append(KNOWN_EMPTY)
-        corr.violations.append({'known_id': KNOWN_EMPTY, 'what': 'empty struct argument: codegen aborts (depth == -1)',
-                                'input': EMPTY_WITNESS, 'expected': 'assembly', 'got': f'rc={rc} {e.strip()[-160:]}'})
+        corr.violations.append({'what': 'empty struct/union arguments: the compiler fails (assert(depth == 0)?)',
+                                'input': EMPTY_PROGRAM, 'expected': 'an executable', 'got': f'rc={rc} {e.strip()[-200:]}'})
+    else:
+        rc1, o1, e1 = sh([os.path.join(d, 'empty')], timeout=30)
+        if rc1 != 0:
+            corr.violations.append({'what': 'empty struct/union arguments: wrong result', 'input': EMPTY_PROGRAM,
+                                    'expected': 'exit status 0', 'got': f'exit status {rc1}'})
+    # nine long double operands nested to the right: the x87 register stack overflows (NaN; gcc: 9.0)
+    p = os.path.join(d, 'deep.c')
+    open(p, 'w').write(X87_WITNESS)
+    rc, o, e = sh([ctx.cc, f'-I{snap}/include', '-o', os.path.join(d, 'deep'), p], timeout=60)
+    rcg, og, eg = sh(['gcc', '-w', '-o', os.path.join(d, 'deepg'), p], timeout=60)
+    if rc == 0 and rcg == 0:
+        rc1, o1, e1 = sh([os.path.join(d, 'deep')], timeout=30)
+        rc2, o2, e2 = sh([os.path.join(d, 'deepg')], timeout=30)
+        corr.evaluations += 1
+        if o1 != o2:
+            if KNOWN_X87 in {f.get('id') for f in load_known().get('findings', [])}:
+                corr.known_hits.append(KNOWN_X87)
+                corr.violations.append({'known_id': KNOWN_X87, 'what': 'nine long double operands nested to the right: x87 register '
+                                        'stack overflow', 'input': X87_WITNESS, 'expected': o2.strip(), 'got': o1.strip()})
+            else:
+                corr.count('x87_depth_witness_fails_not_yet_registered')
+                ctx.notes.append(f'{KNOWN_X87}: witness fails (chibicc {o1.strip()!r}, gcc {o2.strip()!r}) but the finding is not in '
+                                 'known_findings.json yet')
     # jump out of a statement expression under a pending push
     vio = run_probes(ctx, corr, [c20probe.KNOWN_JUMP_OUT], 'knownjump')
     if vio:
@@ -206,11 +293,6 @@ def known_witnesses(ctx, corr):
         v = dict(vio[0])
         v['known_id'] = KNOWN_JUMP
         corr.violations.append(v)
-
-
-def in_known_region(src):
-    """a program that contains the syntactic shape of a known finding (used for generated programs)"""
-    return bool(re.search(r'struct\s+\w*\s*\{\s*\}', src))
 
 
 # ------------------------------------------------------------------------------------------------ plugin entry points
@@ -226,6 +308,10 @@ def correspond(ctx, corr):
     files = [(f, ()) for f in codegen_tie.corpus_files(ctx)]
     ngen = 300 if ctx.thorough else 25
     gen = codegen_tie.generated_files(ctx, ngen)
+    fixed_dir = os.path.join(ctx.scratch, 'fixed_tie')
+    os.makedirs(fixed_dir, exist_ok=True)
+    open(os.path.join(fixed_dir, 'empty_struct.c'), 'w').write(EMPTY_PROGRAM)
+    gen = [(os.path.join(fixed_dir, 'empty_struct.c'), ())] + gen
     t0 = time.time()
     for ent in files + gen:
         res = codegen_tie.asm_text_tie(ctx, corr, [ent])[0]
@@ -244,7 +330,7 @@ def correspond(ctx, corr):
     # oracle leg
     cases = c20probe.all_cases()
     if not ctx.thorough:
-        must = [c for c in cases if c[1] in ('ldouble', 'S32') or c[2] in ('for_inc', 'for_inc_call', 'castvoid', 'comma', 'callmany', 'assign2')]
+        must = [c for c in cases if c[1] in ('ldouble', 'S32', 'S0') or c[2] in ('for_inc', 'for_inc_call', 'castvoid', 'comma', 'callmany', 'assign2')]
         rest = [c for c in cases if c not in must]
         ctx.rng.shuffle(rest)
         cases = must + rest[:250]
@@ -300,16 +386,26 @@ def replay(ctx, corr, path):
 
 MANIFEST = {
     'level_text': 'proof (partial): effect semantics + structural induction over the Node tree of the code-generation model. depth half '
-                  '(assert(depth == 0), call-alignment parity): all 47 node kinds. rsp/x87 half: every straight-line expression kind '
-                  'incl. calls with any argument list, every operand type; whole-function label-height check and rsp/x87 probes on '
-                  'the implementation for code with labels',
-    'level_note': 'C20_depth_partial / C20_assert hold for every tree whose calls pass no empty struct (all node kinds). C20_expr_partial / '
+                  '(assert(depth == 0), call-alignment parity): all 47 node kinds. rsp/x87 half: every node kind - straight-line kinds '
+                  'as an equation for the effect, code with labels (?:, &&, ||, if/for/do/switch/case, goto/labels, break/continue, '
+                  'return, statement expressions, CAS, alloca) in a label-height calculus: one (rsp, x87) height per label, every jump '
+                  'and fall-through arrives at it, rsp = 0 at every return, for every function whose jumps stay in their region; the '
+                  'range half (nothing above the frame, at most eight x87 registers) by the executable whole-function check and '
+                  'rsp/x87 probes on the implementation',
+    'level_note': 'C20_depth_partial / C20_assert hold for every tree whose aggregate argument sizes are not negative (all node kinds; true of every dump). C20_expr_partial / '
                   'C20_expr_balanced_partial / C20_addr_partial / C20_stmt_partial / C20_repeat_partial / C20_one_value_partial / '
                   'C20_call_partial / C20_assert_partial / C20_cast_table are proved for all trees in the decidable scope covE/covA/covS; '
-                  'C20_expr_Statement, C20_stmt_Statement, C20_function_Statement (COND, LOGAND, LOGOR, STMT_EXPR, CAS, alloca, '
-                  'control-flow statements: code with labels) are open and covered by Effect.checkBody on every emitted function plus '
-                  'CPU probes; two known findings (empty struct argument, jump out of a statement expression) are kernel-checked '
-                  'counterexamples of the full statements',
+                  'C20_expr_flow_partial / C20_addr_flow_partial / C20_stmt_flow_partial / C20_function_flow_partial cover ALL node '
+                  'kinds (scope flowE/flowS/flowFn: jumps stay in their region; evaluated on every dumped function: the whole '
+                  'corpus is inside) and conclude Balanced-or-leaves / FnBalanced (Effect.verify without its range test); the '
+                  'distinctness of the labels made up from count() is proved from the monotone counter, the one hypothesis about '
+                  'the code is that the parser\'s labels occur once each (userDistinct, evaluated on every function); '
+                  'C20_checkBody_sound ties the executable check to the same notion. C20_expr_Statement, C20_stmt_Statement, '
+                  'C20_function_Statement stay open as stated: false in the known-finding regions (jump out of a statement '
+                  'expression; more than eight long double values live on the x87 stack: kernel-checked counterexamples) and '
+                  'because checkBody\'s three-pass label inference is incomplete (kernel-checked witness); the range half is only '
+                  'checked by Effect.checkBody on every emitted function plus CPU probes. The empty-struct-argument defect is '
+                  'repaired (/repo b298aee): the side condition okN now only says that aggregate sizes are not negative',
     'technique': 'Lean 4 machine-checked proof; model tied to codegen.c by byte-for-byte assembly text equality on every run',
     'design_ref': 'DESIGN.md section 6, C20',
 }
